@@ -420,7 +420,7 @@ def quiet():
 
 def run_tuner_generic(case):
     """Real Tuner.run over FakeProcLocalBackend + ScriptedScheduler. Returns the observation dict."""
-    from fetch_scripted import FakeProcLocalBackend, ScriptedScheduler
+    from fetch_scripted import FakeProcLocalBackend, ScriptedScheduler, ScriptedComposer
     from syne_tune import Tuner
     from syne_tune.results_callback import StoreResultsCallback
     pol = Policy(rng=random.Random(case["seed"]) if case.get("script") is None else None,
@@ -429,7 +429,8 @@ def run_tuner_generic(case):
     b.world_fn = pol.world
     pol.backend = b
     sch = ScriptedScheduler(pol, b)
-    cb = StoreResultsCallback()
+    comp = case["params"].get("composer", "no_composer")
+    cb = StoreResultsCallback(extra_results_composer=None if comp == "no_composer" else ScriptedComposer(comp))
     tuner = Tuner(trial_backend=b, scheduler=sch, stop_criterion=lambda status: b.npolls >= case["n_polls"],
                   n_workers=case["W"], sleep_time=0, callbacks=[cb], tuner_name="c02", suffix_tuner_name=False,
                   save_tuner=False, max_failures=10 ** 6,
@@ -485,7 +486,7 @@ def run_tuner_generic(case):
 
 def run_tuner_sim(case):
     """Real Tuner.run over the real SimulatorBackend (scripted job runner) + SimulatorCallback."""
-    from fetch_scripted import ScriptedSimBackend, ScriptedScheduler, FakeTime
+    from fetch_scripted import ScriptedSimBackend, ScriptedScheduler, FakeTime, ScriptedComposer
     from syne_tune import Tuner
     from syne_tune.backend.simulator_backend.simulator_backend import SimulatorConfig
     from syne_tune.backend.simulator_backend.simulator_callback import SimulatorCallback
@@ -500,7 +501,8 @@ def run_tuner_sim(case):
     with quiet(), mock.patch("syne_tune.backend.simulator_backend.time_keeper.time", FakeTime()):
         b = ScriptedSimBackend(cfg, tuner_sleep_time=prm["sleep"])
         sch = ScriptedScheduler(pol, b)
-        cb = SimulatorCallback()
+        comp = prm.get("composer", "no_composer")
+        cb = SimulatorCallback(extra_results_composer=None if comp == "no_composer" else ScriptedComposer(comp))
         tuner = Tuner(trial_backend=b, scheduler=sch, stop_criterion=lambda status: b.npolls >= case["n_polls"],
                       n_workers=case["W"], sleep_time=0, callbacks=[cb], tuner_name="c02", suffix_tuner_name=False,
                       save_tuner=False, max_failures=10 ** 6)
@@ -592,7 +594,9 @@ def check_delivery(obs):
     decisions the scheduler took and what reached on_trial_result / the results log."""
     bad = []
     if obs["rows"] != obs["out"]:
-        bad.append(("results_log_differs_from_on_trial_result", dict(rows=obs["rows"][:10], out=obs["out"][:10])))
+        # the results log must hold one row per delivered result, in delivery order (whatever the extra columns)
+        bad.append(("results_log_differs_from_on_trial_result", dict(rows=obs["rows"][:10], out=obs["out"][:10],
+                                                                      n_rows=len(obs["rows"]), n_delivered=len(obs["out"]))))
     seg, segs = {}, {}          # trial -> index of current run; (trial, run) -> delivered payloads
     polls_since, gap_at_resume = {}, {}   # polls between the decision and the resume of a trial
     decided, completed, pending = {}, set(), []
@@ -653,7 +657,8 @@ def check_delivery(obs):
 
 def gen_tuner_case(rng, sim):
     lates = rng.choice([[0], [0], [0, 0, 1], [0, 1, 2]])
-    prm = dict(sjwd=True if sim else rng.random() < 0.7, p_pause=rng.choice([0.1, 0.25, 0.4]), p_stop=rng.choice([0.05, 0.12, 0.25]),
+    prm = dict(composer=rng.choice(["no_composer", "no_composer", "dict_always", "none_always", "none_odd", "none_until_completion"]),
+               sjwd=True if sim else rng.random() < 0.7, p_pause=rng.choice([0.1, 0.25, 0.4]), p_stop=rng.choice([0.05, 0.12, 0.25]),
                p_resume=rng.choice([0.2, 0.5, 0.9]), lates=lates, ties=rng.choice([0.0, 0.0, 0.2]))
     if sim:
         dr = rng.choice([0.0, 0.05, 0.5])
@@ -693,6 +698,7 @@ def tuner_cases(ctx, replay, sim):
         else:
             ctx.h(kind + "_worker_acts_between_reads", min(obs.get("mids", 0), 5))
             ctx.h(kind + "_start_jobs_without_delay", case["params"].get("sjwd", True))
+        ctx.h(kind + "_results_log_composer", case["params"].get("composer", "no_composer"))
         if obs["crash"]:
             # the scripts are legal (the scheduler only resumes paused trials, ...): tuning that aborts delivers nothing more
             ctx.violation("property", "Tuner.run raised on a scripted run (%s): %s" % (kind, obs["crash"]), case=rcase,
@@ -971,6 +977,91 @@ def simscript_cases(ctx, replay, tmp):
 
 
 # ----------------------------------------------------------------------------------------------
+# C3. real processes on the real LocalBackend: pause must end the worker before the trial is resumed
+# ----------------------------------------------------------------------------------------------
+REAL_SCRIPT = """
+import argparse, json, os, signal, sys, time
+p = argparse.ArgumentParser()
+p.add_argument("--epochs", type=int)
+p.add_argument("--tid", type=int)
+p.add_argument("--st_checkpoint_dir", type=str)
+a, _ = p.parse_known_args()
+os.makedirs(a.st_checkpoint_dir, exist_ok=True)
+rf = os.path.join(a.st_checkpoint_dir, "run.txt")
+run = int(open(rf).read()) + 1 if os.path.exists(rf) else 0
+open(rf, "w").write(str(run))
+stop = []
+signal.signal(signal.SIGTERM, lambda sig, frm: stop.append(1))   # graceful shutdown: finish the epoch, report, exit
+for epoch in range(1, a.epochs + 1):
+    time.sleep(0.25)
+    print("[tune-metric]: " + json.dumps({"epoch": epoch, "v": a.tid * 10000 + run * 100 + epoch,
+                                           "st_worker_timestamp": time.time()}), flush=True)
+    if stop:
+        sys.exit(0)
+"""
+
+
+def realproc_cases(ctx, replay, tmp):
+    """2 trials with real worker processes: PAUSE on the report of epoch 2, resume at once, poll to the end"""
+    import time
+    from pathlib import Path
+    from syne_tune.backend.local_backend import LocalBackend
+    if replay is not None and replay.get("kind") != "realproc":
+        return
+    cases = [replay] if replay is not None else [dict(kind="realproc", epochs=[4, 3], pause_at=2)]
+    for case in cases:
+        script = Path(tmp) / "c02_real.py"
+        script.write_text(REAL_SCRIPT)
+        delivered, bad, alive_after_pause = {}, None, []
+        with quiet():
+            b = LocalBackend(entry_point=str(script), rotate_gpus=False)
+            b.set_path(tempfile.mkdtemp(prefix="real-", dir=tmp))
+            try:
+                for n in case["epochs"]:
+                    tid = b.start_trial({"epochs": n, "tid": len(b.trial_ids)}).trial_id
+                    delivered[tid] = []
+                    run_no, t_end, paused_once = 0, time.time() + 20, False
+                    while time.time() < t_end:
+                        st, res = b.fetch_status_results([tid])
+                        for _, r in res:
+                            delivered[tid].append((run_no, int(r["v"])))
+                        if not paused_once and any(int(r["epoch"]) >= case["pause_at"] for _, r in res):
+                            old = b.trial_subprocess[tid]
+                            b.pause_trial(tid, result=res[-1][1])
+                            b.resume_trial(tid)          # at once, as a scheduler promoting the trial in the same iteration
+                            run_no, paused_once = 1, True
+                            try:
+                                old.wait(timeout=2.0)    # a killed process is gone (almost) immediately
+                            except Exception:
+                                alive_after_pause.append(tid)
+                        elif st[tid][1] == "Completed":
+                            break
+                        time.sleep(0.05)
+            finally:
+                b.stop_all()
+        ctx.count(("realproc", case), nontrivial=True)
+        ctx.traces_validated += 1
+        ctx.h("realproc_trials", len(case["epochs"]))
+        for tid, dl in delivered.items():
+            n = case["epochs"][tid]
+            late = [v for run, v in dl if run == 1 and (v // 100) % 100 == 0]
+            want_new = [tid * 10000 + 100 + e for e in range(1, n + 1)]
+            got_new = [v for run, v in dl if run == 1 and (v // 100) % 100 == 1]
+            if late:
+                bad = ("report_of_the_paused_run_written_after_the_pause_decision_delivered_after_resume",
+                       dict(trial=tid, payloads=late, delivered=dl))
+            elif tid in alive_after_pause:
+                bad = ("worker_process_alive_after_pause_trial", dict(trial=tid))
+            elif got_new != want_new:
+                bad = ("resumed_run_not_delivered_completely_in_order", dict(trial=tid, delivered=dl, reported_by_new_run=want_new))
+            if bad:
+                break
+        if bad:
+            ctx.violation("property", "LocalBackend with real worker processes: %s %s" % bad, case=dict(case, first_bad=bad[1]),
+                          signature=dict(backend="LocalBackend (real processes)", event=bad[0]))
+
+
+# ----------------------------------------------------------------------------------------------
 # D. tabular simulator: which results a resumed job replays
 # ----------------------------------------------------------------------------------------------
 def gen_times(rng, n):
@@ -1245,6 +1336,7 @@ def run(ctx, replay=None):
         tuner_cases(ctx, replay, sim=False)
         tuner_cases(ctx, replay, sim=True)
         simscript_cases(ctx, replay, tmp)
+        realproc_cases(ctx, replay, tmp)
         tabular_cases(ctx, replay)
         tabsim_cases(ctx, replay)
     finally:
